@@ -255,9 +255,12 @@ func genC18Sched(g *gen, backend string, req, unit, nops int, budget int) {
 	}
 	for i := 0; i < nops; i++ {
 		if i == closeAt {
-			if g.r.Intn(2) == 0 {
+			switch g.r.Intn(6) {
+			case 0, 1:
 				ops = append(ops, "c")
-			} else {
+			case 2, 3:
+				ops = append(ops, "cx")
+			default:
 				ops = append(ops, fmt.Sprintf("e:%d", g.r.Intn(9)))
 			}
 			s.closed = true
@@ -417,6 +420,30 @@ func genC18(g *gen) {
 		// total written: about 2.5 capacities (quick) up to 6 capacities (thorough)
 		genC18Sched(g, "file", req, 4194304, g.pick(60, 90), g.pick(10, 16+g.r.Intn(9))<<20)
 	}
+	// closing the file backend, in every way (plain, with an error, with the OS refusing the truncate) with 0-4 readers waiting
+	// at the write position and some not waiting; afterwards every kind of access
+	for i := 0; i < g.pick(36, 200); i++ {
+		ops := []string{}
+		nr := 1 + g.r.Intn(4)
+		for k := 0; k < nr; k++ {
+			ops = append(ops, "n")
+		}
+		n := g.r.Intn(40)
+		if n > 0 {
+			ops = append(ops, fmt.Sprintf("g:%d:%d:1", n, g.r.Intn(251)))
+		}
+		for k := 0; k < nr; k++ {
+			if g.r.Intn(4) != 0 {
+				ops = append(ops, fmt.Sprintf("s:%d:%d", k, n), fmt.Sprintf("r:%d:%d", k, 1+g.r.Intn(9))) // parks
+			}
+		}
+		ops = append(ops, []string{"c", "cx", "cx", fmt.Sprintf("e:%d", 1+g.r.Intn(8))}[i%4])
+		for k := 0; k < 2+g.r.Intn(5); k++ {
+			id := g.r.Intn(nr)
+			ops = append(ops, []string{"d", fmt.Sprintf("v:%d", id), fmt.Sprintf("r:%d:3", id), "w:0102", fmt.Sprintf("s:%d:0", id), "c", "cx"}[g.r.Intn(7)])
+		}
+		g.emit("sched file %d %s", []int{0, 1000, 4194304}[g.r.Intn(3)], strings.Join(ops, " "))
+	}
 	// small-write traffic on the file backend (no wrap: exercises the growing file)
 	for i := 0; i < g.pick(3, 12); i++ {
 		genC18Sched(g, "file", 0, 4194304, 60, 0)
@@ -495,6 +522,7 @@ type c18run struct {
 	parked int // readers we know to be inside rwait.Wait()
 	exact  bool
 	dead   bool // a Write never returned: the rest of the schedule cannot be run
+	fh     *os.File
 	closed bool // the schedule has closed the backlog: only "some error, no bytes" is compared from here on;
 	// what else the pinned code answers is printed after a '~' (stripped by ./check before comparing)
 }
@@ -714,6 +742,7 @@ func runC18Sched(f []string) string {
 		defer os.Remove(path)
 		defer fh.Close()
 		x.bl = backlog.NewFileBacklog(req, fh)
+		x.fh = fh
 	default:
 		return "badcase"
 	}
@@ -770,8 +799,16 @@ func runC18Sched(f []string) string {
 		case p[0] == "d" && len(p) == 1:
 			lo, hi, err := x.bl.DataRange()
 			out = append(out, fmt.Sprintf("d=%s%d:%d:%s", q, lo, hi, c18errName(err)))
-		case (p[0] == "c" && len(p) == 1) || (p[0] == "e" && len(p) == 2):
+		case (p[0] == "c" && len(p) == 1) || (p[0] == "cx" && len(p) == 1) || (p[0] == "e" && len(p) == 2):
 			ids := x.parkedIds()
+			if p[0] == "cx" {
+				// the operating system refuses what close() does to the ring file (here: the descriptor is gone, so the
+				// truncate fails): Close may report that, but the backlog is closed all the same and every waiting reader wakes
+				if x.fh != nil {
+					x.fh.Close()
+				}
+				p[0] = "c"
+			}
 			if len(ids) > 0 {
 				// readers are parked: let store.close() take a few milliseconds, as closing a large backlog file does — a reader
 				// that is woken must find the backlog closed, however long the close takes
